@@ -1,6 +1,8 @@
 import IncrVerif.Proofs.NestH67
 import IncrVerif.Proofs.NestH68
 import IncrVerif.Proofs.NestH75
+import IncrVerif.Proofs.NestH118
+import IncrVerif.Proofs.NestH119
 /-!
 # C03 for NESTED binds (fragment F2) — binds created inside a bind's scope
 
@@ -41,7 +43,34 @@ NON-VACUITY (`NestH67`): `exHistN` — a history with a nested bind whose INNER 
 ## VALIDATION BY EXECUTION (before proving): Boolean versions of `DInv`, `OrderInv`, `StepRelB`, `StepL2`, `All2` (lexicographic scope-path rank), `GInv2` at rest, `GenOK2`,
 reads = `den2` at every drain state of 300 generated nested histories (14318 steps, 3438 runs of change detectors, 6153 reads): 0 violations; model = real implementation on all.
 
-## ASSUMED / NOT PROVED HERE: see the end of this header's successor sections below (total correctness, closures referring to younger nodes).
+## PROVED HERE: TOTAL CORRECTNESS (C04) for histories with binds — fragments F0 ⊂ F1 ⊂ F2 (`Proofs/NestH76–118`)
+
+`history_never_panics`: a history of fragment F2 whose indices exist (`ValidIdx`: operands name handles created earlier, variables and observers exist) NEVER panics and never
+runs out of fuel, PROVIDED the state it ends in — whatever the outcome; the monad keeps the state when a panic is raised — has room (`HasRoom N fuelDefault`): at most `N` nodes,
+`N` = the height limit the state was initialised with, and `needFuel size = 4 * size + 8 ≤ fuelDefault`.  (The number of nodes a `stabilise` creates depends on the data — which
+closure variants run — so it cannot be bounded from the program text; node counts only grow, so every intermediate state has room too.)
+* THE RIGHT HEIGHT BOUND (`HBo2`, `NestH76`): `height n ≤ (position of n in the rank order of ALL nodes ever created) + 1`.  Heights strictly increase along child edges and from a change
+  detector to the nodes of its scope (bind nodes add 2 levels per bind, scope nodes sit above the change detector), and both have increasing rank; heights of live nodes are NOT
+  bounded by the live graph (a main node keeps the height an earlier, deeper generation gave it; the model never frees indices), so the safe limit is the number of nodes ever created.
+* the two cascades: `becameNecessary_total2`, `addParentWithoutAdjustingHeights_total2` (the `bind-not-necessary` panic: a scope node becomes necessary only under a necessary main
+  node), `checkIfUnnecessary_total2`, `becameUnnecessary_total2`, `removeChildren_total2` (fuel `2·pos+2` / `3·pos+3`) (`NestH77–81`);
+* `adjustHeights_total2` (`NestH82–84`): no `cyclic` panic (every pair handled has increasing rank above `rk oc`), no `height-limit` (the bound is a loop invariant), TERMINATION: each node is
+  popped AT MOST ONCE (nodes are popped in increasing order of their old height), so `fuel ≥ size + 1` suffices;
+* `maybeChangeValue_total2`, `recomputeOne_static_total2` (static and `bindMain` nodes; needs `RhsRan`: a valid change detector that has run has installed a right-hand side) (`NestH86–87`);
+* the phases of a run of a change detector: `lhsRunClosure_total2` (`elabTemplate` incl. `createBind`: node creation never fails), `lhsInvalidateOld_total2` (recursion depth of
+  `invalidateNode` ≤ rank position) (`NestH89–90`), `lhsRelink_total2` (`changeChildBindRhs`/`stateAddParent`, fuel `3·size+3`) (`NestH91–92`), `lcStep_total2` (`NestH97–98`);
+* `drain_total2` (`NestH100–101`): the drain on a GROWING graph: potential `unrun + (final size − size)` decreases with every `recomputeOne`;
+* `addNewObservers_total2`, `unlinkDisallowedObservers_total2` (`NestH103`), `step_total2` (all other API actions, incl. top-level `bind`) (`NestH110–112`), `stabilise_total2`,
+  `history_total2` (`NestH106–108`), `history_never_panics2`, example `exHistN_total` (`NestH118`).
+
+## ASSUMED / NOT PROVED HERE
+* Closures referring to YOUNGER top-level nodes (created after the bind, before the closure runs; in Rust only through a shared cell) are outside fragment F2.  For them the PURE
+  theorems apply with the step contract as an explicit hypothesis (`LcStepsOK2 env Aux`: `drainHeap_valuesB2`, `drain_onceB2`); the Boolean versions of `DInv`, `OrderInv`, `StepRelB`,
+  `StepL2` hold at every drain state of 200 generated histories with such references (until the history panics: `cyclic` when the younger node depends on the bind).  The ghost-rank
+  design was chosen so that this extension only needs a different rank at top-level creation.  Kernel-checked example (`NestH119`): `exY` — a closure over a variable created AFTER the
+  bind: `DInv` holds where the change detector is about to run (rank: the younger variable BELOW the change detector), its run satisfies `StepL`, `stepL2_inv` gives `DInv` again.  FINDING FN1 (/tmp/nested/FINDINGS.md): a bind whose closure returns the bind's OWN main
+  node panics `cyclic` in the model but `RefCell already borrowed @ node.rs:1888` in the implementation.
+* Outside the fragment: `map_ref`, `map_with_old`, expert nodes, user cutoffs, effects, handlers inside programs with binds; release mode (`cfg.debug = false`).
 -/
 namespace IncrVerif.Props.C03Nested
 open IncrVerif.Engine IncrVerif.Driver IncrVerif.Proofs IncrVerif.Proofs.Sched IncrVerif.Proofs.Quiet IncrVerif.Proofs.BindH IncrVerif.Proofs.NestH
@@ -133,5 +162,47 @@ example : (∃ s tk, Quiet.runActions nEnv exHistN (State.init 128 true) #[] = .
       some (false, false, false, false, false) ∧
     NX.factN exHistN (fun s => s.binds.size) = some 3 :=
   ⟨exHistN_F2.2, exHistN_den.2.1, by decide +kernel, exHistN_outer_switch.2.1, exHistN_fresh_inner.1⟩
+
+/-- **C04 for histories with (nested) binds.** A history of fragment F2 whose indices exist never panics and never runs out of fuel, provided the state it ends in (whatever the
+outcome) has at most `N` nodes and `4 * size + 8 ≤ fuelDefault`; the final state satisfies the invariants. -/
+theorem history_never_panics {env : Env} {N : Nat} {d : Bool} {acts : List Action}
+    (hH : HistF2 env 0 acts) (hV : ValidIdx 0 0 0 acts)
+    (hroom : HasRoom N fuelDefault (runS env acts (State.init N d) #[]).2) :
+    ∃ s tk, Quiet.runActions env acts (State.init N d) #[] = .ok (s, tk) ∧ QT env N s ∧ QG2 env s :=
+  history_never_panics2 hH hV hroom
+
+/-- the pieces: a run of a change detector, the drain, `stabilise` return if the state they end in has room -/
+theorem lcStep_total (env : Env) (N : Nat) : LcStepTotG stepFuel env N := lcStepTot env N
+theorem drain_total (env : Env) (N : Nat) : DrainTot env N := drainTot env N
+theorem stabilise_total (env : Env) (N : Nat) : StabTot env N := stabTot env N
+
+/-- `adjustHeights` returns: no `cyclic`, no `height-limit`, each node popped at most once (`fuel ≥ size + 1`) -/
+theorem adjustHeights_total {env : Env} {rk : Nat → Nat} {N oc op' fuel : Nat} {s : State} {op : Nat → Op} {ex : Nat → Prop} {dy : List Nat}
+    (I : GInv2 env rk s op ex dy) (hb : HBo2 rk s op) (R : Room N s)
+    (hopen : op op' = .linking (s.children op').length) (hclosed : ∀ m, m ≠ op' → op m = .closed)
+    (hedge : ∃ i, (op', i) ∈ (s.nodeD oc).parents)
+    (hother : ∀ c i, (op', i) ∈ (s.nodeD c).parents → c ≠ oc → (s.nodeD c).height < (s.nodeD op').height)
+    (hgtop : (s.nodeD op').inRch = true → (s.nodeD op').heightInRch = (s.nodeD op').height)
+    (hq : s.isStale op' = true → ex op' ∨ (s.nodeD op').inRch = true)
+    (hah : AhhEmpty s)
+    (hdy : ∀ m, m ∈ dy → ∀ b br, (s.nodeD m).createdIn = .bind b → s.binds[b]? = some br → rk br.lhsChange < rk op')
+    (hscope : ∀ b br, (s.nodeD op').createdIn = .bind b → s.binds[b]? = some br → (s.nodeD br.lhsChange).height < (s.nodeD op').height)
+    (hge : (s.nodeD op').height ≤ (s.nodeD oc).height) (h0 : 0 ≤ (s.nodeD op').height)
+    (hf : s.nodes.size + 1 ≤ fuel) :
+    Tot (adjustHeights oc op' fuel) s (fun _ s' =>
+      GInv2 env rk s' (upd op op' .closed) ex dy ∧ AhhEmpty s' ∧ HRel s s' ∧
+      (∀ m, rk m < rk op' → s'.nodeD m = s.nodeD m) ∧
+      HBo2 rk s' (upd op op' .closed) ∧ Room N s') :=
+  adjustHeights_total2 I hb R hopen hclosed hedge hother hgtop hq hah hdy hscope hge h0 hf
+
+/-- non-vacuity: the hypotheses of `history_never_panics` hold for the nested example (17 nodes at the end) -/
+example : ValidIdx 0 0 0 exHistN ∧ HasRoom 128 fuelDefault (runS nEnv exHistN (State.init 128 true) #[]).2 ∧
+    ∃ s tk, Quiet.runActions nEnv exHistN (State.init 128 true) #[] = .ok (s, tk) ∧ QT nEnv 128 s ∧ QG2 nEnv s :=
+  ⟨exHistN_idx, exHistN_room, exHistN_total⟩
+
+/-- closures referring to a YOUNGER top-level node: the pure theorems apply (kernel-checked on a reached state) -/
+example : DInv yEnv exY (some 1) ∧ (∃ br br', StepL yEnv 1 0 br br' (some 2) exY exY') ∧ DInv yEnv exY' (some 2) ∧
+    (exY.nodeD 3).createdIn = .top ∧ (exY.nodeD 4).kind = .map 0 [3] ∧ (exY'.binds[0]?.map (·.rhs)) = some (some 3) :=
+  ⟨exY_dinv, exY_stepL, exY'_dinv, by decide +kernel, by decide +kernel, by decide +kernel⟩
 
 end IncrVerif.Props.C03Nested
